@@ -601,11 +601,28 @@ fn check_step(c: &Ctx<'_>, stats: &mut RunStats, models_fix: &mut Option<Option<
         let want = c.models[t].as_ref().map(|m| m.text.as_bytes());
         let got = post_t.map(|p| &p.bytes[..]);
         if want != got || post_t.map(|p| p.len) != want.map(|w| w.len()) {
-            let props: Vec<&str> =
-                if matches!(c.real, Outcome::PanicInjected) { vec!["C18", "C01"] } else { vec!["C01"] };
+            let clone_like = matches!(op, Op::Clone { .. } | Op::CloneFrom { .. } | Op::FromRef { .. } | Op::ToLean { src: ToLeanSrc::Slot(_), .. });
+            let props: Vec<&str> = if got.is_none() && want.is_some() {
+                // the pool stores `Option<LeanString>`: a live string that reads back as `None`
+                // is exactly C20's "Some(s) mistaken for None"
+                vec!["C20", "C01"]
+            } else if matches!(c.real, Outcome::PanicInjected) {
+                vec!["C18", "C01"]
+            } else if clone_like {
+                // "the copy compares equal to the original" is C08's clause as much as C01's
+                vec!["C01", "C08"]
+            } else {
+                vec!["C01"]
+            };
             return Some(c.plain(
                 &props,
-                if matches!(c.real, Outcome::PanicInjected) { "panic_state_mismatch" } else { "text_mismatch" },
+                if got.is_none() && want.is_some() {
+                    "some_reads_as_none"
+                } else if matches!(c.real, Outcome::PanicInjected) {
+                    "panic_state_mismatch"
+                } else {
+                    "text_mismatch"
+                },
                 format!("crate holds {:?} (len {:?}); String model holds {:?}", got.map(show), post_t.map(|p| p.len), want.map(show)),
             ));
         }
@@ -639,7 +656,9 @@ fn check_step(c: &Ctx<'_>, stats: &mut RunStats, models_fix: &mut Option<Option<
         } else if is_index_op(op) {
             stats.relevant("C07");
         }
-        normal_success = matches!(c.real, Outcome::Returned(_)) && !fault;
+        // postcondition clauses bind whenever the call reports success, even if a refusal was
+        // swallowed on the way; the request-counting clauses are skipped in that case (see below)
+        normal_success = matches!(c.real, Outcome::Returned(_));
     }
 
     // ---- clauses that speak about successful, fault-free calls ---------------------------------
@@ -669,7 +688,9 @@ fn check_success_clauses(c: &Ctx<'_>, stats: &mut RunStats) -> Option<Violation>
     let op = &c.st.op;
     let pre_t = c.pre[t].as_ref();
     let post_t = c.post[t].as_ref();
-    let no_req = c.d.alloc == 0 && c.d.realloc == 0;
+    // request counts say nothing about the operation itself when an injected refusal fired in it
+    let counts_valid = !c.fault_fired();
+    let no_req = !counts_valid || (c.d.alloc == 0 && c.d.realloc == 0);
     let arena = Arena::get();
 
     // ---- C08 -----------------------------------------------------------------------------
@@ -731,7 +752,7 @@ fn check_success_clauses(c: &Ctx<'_>, stats: &mut RunStats) -> Option<Violation>
         }
         if whole_text && p.len > INLINE {
             stats.relevant("C09");
-            if heap::COUNTS && (c.d.alloc != 1 || c.d.realloc != 0) || p.cap != p.len || p.class != Storage::Heap {
+            if heap::COUNTS && counts_valid && (c.d.alloc != 1 || c.d.realloc != 0) || p.cap != p.len || p.class != Storage::Heap {
                 return Some(c.plain(
                     &["C09"],
                     "long_text_not_exact",
